@@ -18,6 +18,10 @@ Inductive pred :=
 | PAddGt (i j : nat) (k : Z)     (* lambda r: r[i] + r[j] > k      / "a + b > k" *)
 | PNot (p : pred).
 
+(* Python ints, bool being an int subclass (True * 3 == 3) *)
+Definition int_of_cell (c : cell) : option Z :=
+  match c with CI z => Some z | CB b => Some (b2z b) | _ => None end.
+
 Fixpoint eval_pred (p : pred) (row : list cell) : bool :=
   match p with
   | PTrue => true
@@ -27,9 +31,9 @@ Fixpoint eval_pred (p : pred) (row : list cell) : bool :=
                end
   | PEqC i c => cell_eqb (nth i row CN) c
   | PEqCols i j => cell_eqb (nth i row CN) (nth j row CN)
-  | PMulGt i j k => match nth i row CN, nth j row CN with CI a, CI b => k <? a * b | _, _ => false end
-  | PSqGt i k => match nth i row CN with CI a => k <? a * a | _ => false end
-  | PAddGt i j k => match nth i row CN, nth j row CN with CI a, CI b => k <? a + b | _, _ => false end
+  | PMulGt i j k => match int_of_cell (nth i row CN), int_of_cell (nth j row CN) with Some a, Some b => k <? a * b | _, _ => false end
+  | PSqGt i k => match int_of_cell (nth i row CN) with Some a => k <? a * a | _ => false end
+  | PAddGt i j k => match int_of_cell (nth i row CN), int_of_cell (nth j row CN) with Some a, Some b => k <? a + b | _, _ => false end
   | PNot q => negb (eval_pred q row)
   end.
 
@@ -51,8 +55,8 @@ Definition eval_expr (e : expr) (row : list cell) : cell :=
       | _, _ => CN
       end
   | EIsEq i c => CB (cell_eqb (nth i row CN) c)
-  | EMul i j => match nth i row CN, nth j row CN with CI a, CI b => CI (a * b) | _, _ => CN end
-  | ESq i => match nth i row CN with CI a => CI (a * a) | _ => CN end
+  | EMul i j => match int_of_cell (nth i row CN), int_of_cell (nth j row CN) with Some a, Some b => CI (a * b) | _, _ => CN end
+  | ESq i => match int_of_cell (nth i row CN) with Some a => CI (a * a) | _ => CN end
   end.
 
 Inductive op :=
